@@ -41,7 +41,7 @@ class Runaway(BaseException):
 
 
 class LeafState:
-    __slots__ = ("step", "outcome", "value", "flag_at_enter", "enters")
+    __slots__ = ("step", "outcome", "value", "flag_at_enter", "enters", "clean_raised")
 
     def __init__(self):
         self.step = 0
@@ -49,6 +49,7 @@ class LeafState:
         self.value = None
         self.flag_at_enter = "unset"
         self.enters = 0
+        self.clean_raised = False
 
 
 class Run:
@@ -183,6 +184,10 @@ class PDoer(doing.Doer):
 
     def clean(self):
         self._run.ev("clean", self._spec["id"])
+        if self._spec.get("clean_raise"):
+            # the doer's own clean hook raises after it finished by itself: still exactly one terminal context
+            self._st.clean_raised = True
+            raise ValueError(f"scripted failure in clean hook of {self._spec['id']}")
 
     def cease(self):
         self._run.ev("cease", self._spec["id"], by_sched=self._run.sched_depth > 0)
@@ -593,9 +598,28 @@ class LineFailpoint:
         return False
 
 
-def execute(prog, failpoint_k=None, max_cycles=None, foreign_task=False):
-    """Build and run a program. Returns the Run (trace, states, result)."""
-    run = build(prog)
+def rebuild(run, prog):
+    """Re-home the SAME doer objects of an earlier run under a NEW Doist (fresh trace, scripts rewound)."""
+    run.prog = prog
+    run.trace = []
+    run.cycles = 0
+    run.total_steps = 0
+    run.finished = False
+    run.result = None
+    for st in run.state.values():
+        st.__init__()      # rewind the scripts in place (closures and doer instances hold these objects)
+    kwa = dict(real=False, limit=prog.get("limit"), doers=run.top, tyme=prog.get("tyme", 0.0))
+    if prog.get("tock") is not None:
+        kwa["tock"] = prog["tock"]
+    run.do_kwa = {}
+    run.doist = PDoist(run, **kwa)
+    return run
+
+
+def execute(prog, failpoint_k=None, max_cycles=None, foreign_task=False, reuse=None):
+    """Build and run a program. Returns the Run (trace, states, result).
+    reuse=<earlier Run>: run the same doer objects again under a new Doist built from `prog` settings."""
+    run = rebuild(reuse, prog) if reuse is not None else build(prog)
     if max_cycles:
         run.max_cycles = max_cycles
     _current["run"] = run
